@@ -19,7 +19,7 @@ From Coq Require String.
 From Abasic Require Import Model.Bytes Model.Num Model.Token Model.Data Model.Lexer Gen.Tables
      Model.State Model.Eval Model.Interp Model.Analyzer Proofs.Monad Proofs.Frames Proofs.StoreProofs
      Proofs.Safety Proofs.AnalyzerFrame Proofs.AnalyzerProofs Proofs.AgreeProofs Proofs.Caps Proofs.CheckSound Proofs.CheckAgree Proofs.AnalyzerFns Proofs.AnalyzerSafety Proofs.AnalyzerTermination
-     Proofs.PlainToks Proofs.ProgSound Proofs.ProgSoundElse.
+     Proofs.PlainToks Proofs.ProgSound Proofs.ProgSoundElse Proofs.LineAgree.
 Import ListNotations.
 Local Open Scope nat_scope.
 
@@ -241,6 +241,32 @@ Theorem C06_program_sound_input : forall fuel fi text,
     end.
 Proof. exact program_sound_input. Qed.
 
+(* THE CONVERSE CLAUSE FOR A WHOLE LINE (Proofs/LineAgree.v).  A line none of whose tokens is IF, THEN, ELSE, GOTO,
+   GOSUB, RETURN, NEXT, END, STOP, INPUT or DEF; interpreter and checker on the same program with their cursors at the
+   same place of that line, the interpreter's runtime state typed and no function defined (a fresh state is one):
+   if the interpreter executes the statements that remain on the line one after another, each successfully
+   ([LineRun]), the checker's walk over the rest of the line reports no error.  [walk_line] is the function whose
+   [Some msg] answers are the Error messages of the analysis.  Read the other way round: an error the analysis
+   reports on a straight line means that executing that line fails. *)
+Theorem C06_straight_line_complete : forall fi fa k m s s', LineRun fi s s' ->
+  forall sa acc, R s sa -> straight_line (cur_line s) = true ->
+  match walk_line fa k m (sa, acc) with
+  | (Ok (Some _), _) => False
+  | _ => True
+  end.
+Proof. exact straight_line_complete. Qed.
+
+Theorem C06_straight_line_error_fails : forall fi fa k m s sa acc msg st',
+  R s sa -> straight_line (cur_line s) = true ->
+  walk_line fa k m (sa, acc) = (Ok (Some msg), st') -> ~ exists s', LineRun fi s s'.
+Proof. exact straight_line_error_fails. Qed.
+
+(* a failing statement of the line is a failing turn of the host loop *)
+Theorem C06_statement_failure_is_turn_failure : forall fi s s1 e l s2,
+  has_next_token (set_state Running s) = (Ok true, s1) -> evaluate_statement fi 0 s1 = (Err e l, s2) ->
+  run_next_statement fi s = (Err e l, s2).
+Proof. exact turn_fails_with_statement. Qed.
+
 (* what an accepted expression is made of: operands, operators, parentheses, commas *)
 Theorem C06_expression_tokens : forall f n st t st',
   analyze_expression f n st = (Ok t, st') -> PL exprtok (fst st) (fst st').
@@ -379,6 +405,43 @@ Proof.
   split; [apply caps_reachable, caps_init | vm_compute; reflexivity].
 Qed.
 
+(* non-vacuity of the line theorems.  Line 10 A = 1 : PRINT A : B$ = "x" : straight, related states, the interpreter
+   executes all three statements and the checker's walk answers "no error".  Line 10 A$ = 5 : PRINT 1 : the walk
+   answers an Error message, and the interpreter's first statement indeed fails. *)
+Definition C06_line_state (l : String.string) : interp :=
+  set_loc (mkloc (Some 10%N) 0) (run_state 100 init_interp [HLine (bs l)]).
+Definition C06_line_map (l : String.string) : source_map := an_map (analyze 200 (bs l ++ [10%N])).
+
+Lemma C06_line_state_R l : functions (C06_line_state l) = [] -> R (C06_line_state l) (C06_line_state l).
+Proof.
+  intros Hf. split; [repeat split|]. split; [|split; exact Hf].
+  apply (caps_inv_ext (run_state 100 init_interp [HLine (bs l)])); try reflexivity.
+  apply caps_reachable, caps_init.
+Qed.
+
+Example C06_line_example_good :
+  let st := C06_line_state "10 A = 1 : PRINT A : B$ = ""x""" in
+  R st st /\ straight_line (cur_line st) = true
+  /\ (exists s', LineRun 200 st s')
+  /\ fst (walk_line 200 10 (C06_line_map "10 A = 1 : PRINT A : B$ = ""x""") (st, [])) = Ok None.
+Proof.
+  cbn zeta. split; [apply C06_line_state_R; vm_compute; reflexivity|]. split; [vm_compute; reflexivity|].
+  split; [|vm_compute; reflexivity].
+  assert (E : exists s', line_run 10 200 (C06_line_state "10 A = 1 : PRINT A : B$ = ""x""") = Some s')
+    by (eexists; vm_compute; reflexivity).
+  destruct E as [s' E]. exists s'. exact (line_run_sound 200 10 _ s' E).
+Qed.
+
+Example C06_line_example_bad :
+  let st := C06_line_state "10 A$ = 5 : PRINT 1" in
+  R st st /\ straight_line (cur_line st) = true
+  /\ (exists msg st', walk_line 200 10 (C06_line_map "10 A$ = 5 : PRINT 1") (st, []) = (Ok (Some msg), st'))
+  /\ (exists s1 l s2, has_next_token st = (Ok true, s1) /\ evaluate_statement 200 0 s1 = (Err ETypeMismatch l, s2)).
+Proof.
+  cbn zeta. split; [apply C06_line_state_R; vm_compute; reflexivity|]. split; [vm_compute; reflexivity|].
+  split; [eexists _, _; vm_compute; reflexivity|]. eexists _, _, _. split; [vm_compute; reflexivity|]. vm_compute; reflexivity.
+Qed.
+
 (* non-vacuity of the completeness direction: the checker REJECTS  1 + "x"  on
    a fresh state (so by the theorem the interpreter cannot evaluate it) and the
    interpreter indeed answers TYPE MISMATCH *)
@@ -423,4 +486,7 @@ Print Assumptions C06_program_sound.
 Print Assumptions C06_turn_sound.
 Print Assumptions C06_program_sound_else.
 Print Assumptions C06_program_sound_input.
+Print Assumptions C06_straight_line_complete.
+Print Assumptions C06_straight_line_error_fails.
+Print Assumptions C06_statement_failure_is_turn_failure.
 Print Assumptions C06_expression_tokens.
